@@ -85,6 +85,10 @@ pub struct World {
     /// uuid output plugin (vertex i has the identifier `uuid_of(i)`)
     #[serde(default)]
     pub uuid_plugin: bool,
+    /// the persistence and output policies are given per run (run configuration) instead of in the
+    /// application configuration, which then keeps its defaults
+    #[serde(default)]
+    pub policies_at_run_level: bool,
 }
 
 pub fn uuid_of(v: usize) -> String {
@@ -257,6 +261,7 @@ impl World {
             turn_delays: None,
             road_classes: None,
             uuid_plugin: false,
+            policies_at_run_level: false,
         }
     }
 
@@ -410,6 +415,22 @@ impl World {
         t
     }
 
+    /// the per-run configuration of the explored execution (None = no overrides)
+    pub fn run_config(&self, run_parallelism: Option<usize>) -> Option<Value> {
+        let mut m = serde_json::Map::new();
+        if let Some(p) = run_parallelism {
+            m.insert("parallelism".into(), json!(p));
+        }
+        if self.policies_at_run_level {
+            let mut me = self.clone();
+            me.policies_at_run_level = false;
+            let full = me.config(false);
+            m.insert("response_persistence_policy".into(), full["response_persistence_policy"].clone());
+            m.insert("response_output_policy".into(), full["response_output_policy"].clone());
+        }
+        if m.is_empty() { None } else { Some(Value::Object(m)) }
+    }
+
     /// the application configuration as JSON (`reference` = the isolated oracle configuration:
     /// no output file, no prediction cache, parallelism 1)
     pub fn config(&self, reference: bool) -> Value {
@@ -535,11 +556,12 @@ impl World {
             (Some(o), Some(o2), false) => json!({"type": "combined", "policies": [file_policy(o, self.out_path()), file_policy(o2, self.out2_path())]}),
             _ => json!({"type": "none"}),
         };
+        let at_run = self.policies_at_run_level && !reference;
         let mut cfg = json!({
             "parallelism": if reference { 1 } else { self.parallelism },
             "search_orientation": if self.edge_oriented { "edge" } else { "vertex" },
-            "response_persistence_policy": if self.persist || reference { "persist_response_in_memory" } else { "discard_response_from_memory" },
-            "response_output_policy": out_policy,
+            "response_persistence_policy": if self.persist || reference || at_run { "persist_response_in_memory" } else { "discard_response_from_memory" },
+            "response_output_policy": if at_run { json!({"type": "none"}) } else { out_policy },
             "graph": graph,
             "algorithm": self.algorithm,
             "traversal": traversal,
